@@ -47,8 +47,6 @@ def cases(tier, seed):
         for opn in OPS:
             for ok_ in OPERANDS:
                 for refl in (False, True):
-                    if ok_ == 'same' and refl:
-                        continue
                     out.append(('arith', st, opn, ok_, refl))
         out.append(('pow_int', st))
         for un in ('neg', 'abs', 'pos', 'getitem', 'ravel', 'reshape', 'matmul'):
@@ -131,6 +129,9 @@ def _arith(key, twin):
 
     def real(t, o=None):
         o = const if okind == 'pyfloat' else o
+        if okind == 'same' and refl:
+            # Python never dispatches to the reflected method for two containers of the same class: call it as a subclass operand would
+            return getattr(t, f'__r{opn}__')(o)
         return op(o, t) if refl else op(t, o)
 
     def oracle(t, o=None):
